@@ -193,6 +193,7 @@ type StreamRec struct {
 	CloseErr string
 	Closed bool
 	AfterRead, AfterWrite string
+	ReadErrAtTeardown bool
 	stream rpc.Stream
 }
 
@@ -221,6 +222,7 @@ type World struct {
 	Notes    []string
 	SimEnd   time.Duration
 	LiveAtEnd []simrt.GInfo
+	TearingDown bool
 	byID     map[uint64]*CallRec
 	opIdx    map[int]int
 	Arrivals map[int][]uint64 // client -> call ids in the order they arrived on its shared Done channel
